@@ -85,6 +85,13 @@ def horiz_angle(f, l, r):
     return math.acos(max(-1.0, min(1.0, c)))
 
 
+def raised(p, dh):
+    """the point dh metres up along its ellipsoid normal (g3: Model::instrument with dB = dL = 0)"""
+    b, lam, _ = xyz2blh(*p)
+    v = [math.cos(b) * math.cos(lam), math.cos(b) * math.sin(lam), math.sin(b)]
+    return [p[i] + dh * v[i] for i in range(3)]
+
+
 def signed_angle(f, l, r):
     """bearing(right) - bearing(left) in the horizontal plane of f, clockwise, in [0, 2 pi)"""
     b, lam, _ = xyz2blh(*f)
@@ -270,9 +277,17 @@ def gen_network(rng, family=None):
                     sa = 2 * math.pi - sa
                 if sa < 0.15 or sa > math.pi - 0.15:
                     continue
-                clusters.append({"obs": [{"t": "angle", "from": pts[i]["id"], "left": pts[j]["id"], "right": pts[k]["id"],
-                                          "v": horiz_angle(pts[i]["true"], pts[j]["true"], pts[k]["true"]) * GON}],
-                                 "cov": spd(rng, 1, 0, 100.0)})
+                ang = {"t": "angle", "from": pts[i]["id"], "left": pts[j]["id"], "right": pts[k]["id"]}
+                f, l, r = pts[i]["true"], pts[j]["true"], pts[k]["true"]
+                if rng.random() < 0.6:
+                    # instrument / target heights (<from-dh>, <left-dh>, <right-dh>): every point is raised along its
+                    # own ellipsoid normal; the targets' normals are tilted by distance / R against the station's
+                    # vertical, so a target height moves the target horizontally as the station sees it
+                    ang["dh"] = [round(rng.uniform(0, 2), 3), round(rng.choice([rng.uniform(0, 3), rng.uniform(5, 25)]), 3),
+                                 round(rng.choice([rng.uniform(0, 3), rng.uniform(5, 25)]), 3)]
+                    f, l, r = raised(f, ang["dh"][0]), raised(l, ang["dh"][1]), raised(r, ang["dh"][2])
+                ang["v"] = horiz_angle(f, l, r) * GON
+                clusters.append({"obs": [ang], "cov": spd(rng, 1, 0, 100.0)})
     elif family == "dist-height":
         amp = 0.002
         n = max(n, 5)
@@ -327,8 +342,11 @@ def obs_xml(o):
     if t == "hdiff":
         return "<hdiff> <from>%s</from> <to>%s</to> <val>%s</val> </hdiff>" % (o["from"], o["to"], r17(o["v"]))
     if t == "angle":
-        return "<angle> <from>%s</from> <left>%s</left> <right>%s</right> <val>%s</val> </angle>" % (
-            o["from"], o["left"], o["right"], r17(o["v"]))
+        dh = ""
+        if o.get("dh"):
+            dh = " <from-dh>%s</from-dh> <left-dh>%s</left-dh> <right-dh>%s</right-dh>" % tuple(r17(x) for x in o["dh"])
+        return "<angle> <from>%s</from> <left>%s</left> <right>%s</right> <val>%s</val>%s </angle>" % (
+            o["from"], o["left"], o["right"], r17(o["v"]), dh)
     raise ValueError(t)
 
 
